@@ -38,6 +38,15 @@ class PlainDS(torch.utils.data.Dataset):
         return i
 
 
+def _other_epochs(spec):
+    """the two following epochs and - for a negative seed - the later epoch whose sum with the seed has the opposite sign"""
+    e, sd = spec["epoch"], spec["seed"]
+    out = [e + 1, e + 2]
+    if sd < 0 and -2 * sd - e > e and -2 * sd - e not in out:
+        out.append(-2 * sd - e)
+    return out
+
+
 def _streams(make, W, epoch, via=None):
     out = []
     for r in range(W):
@@ -125,9 +134,9 @@ def check_distributed(spec):
     if G3 != G:
         raise Violation("set_epoch-back-does-not-reproduce", f"set_epoch({spec['epoch']}) after another epoch gives a different draw")
     if shuffle and len(set(G)) >= 8:  # judged on what the ranks emit together (with N < W and drop_last that is nothing at all)
-        others = [_streams(make, W, spec["epoch"] + k)[0] for k in (1, 2)]
-        if all(o == G for o in others) or (len(set(G)) >= 12 and others[0] == G):
-            raise Violation("set_epoch-does-not-change-the-draw", f"epochs {spec['epoch']}..+2 give {G}")
+        others = [_streams(make, W, e_)[0] for e_ in _other_epochs(spec)]
+        if all(o == G for o in others) or (len(set(G)) >= 12 and any(o == G for o in others)):
+            raise Violation("set_epoch-does-not-change-the-draw", f"epochs {[spec['epoch']] + _other_epochs(spec)} give {G}")
     if r > 1:
         _runs(D, r, "distributed")
     elif shuffle or True:
@@ -237,10 +246,10 @@ def check_prefix_kind(spec):
     if G3 != G:
         raise Violation(f"set_epoch-back-does-not-reproduce:{kind}", f"set_epoch({spec['epoch']}) after another epoch gives a different draw")
     if (kind == "weighted" or spec["shuffle"]) and len(set(G)) >= 8:
-        others = [_streams(make, W, spec["epoch"] + k)[0] for k in (1, 2)]
+        others = [_streams(make, W, e_)[0] for e_ in _other_epochs(spec)]
         # P[two honest shuffles of >= 12 distinct elements coincide] <= 1/12! ~ 2e-9: the pairwise test is safe there
-        if all(o == G for o in others) or (len(set(G)) >= 12 and others[0] == G):
-            raise Violation(f"set_epoch-does-not-change-the-draw:{kind}", f"epoch {spec['epoch']} and {spec['epoch'] + 1}")
+        if all(o == G for o in others) or (len(set(G)) >= 12 and any(o == G for o in others)):
+            raise Violation(f"set_epoch-does-not-change-the-draw:{kind}", f"epoch {spec['epoch']} and one of {_other_epochs(spec)}")
     return Case(W >= 3 or len(D) % W != 0 or len(D) < W, [kind, "W=%d" % W], W + 3)
 
 
@@ -276,7 +285,8 @@ WORLD = st.sampled_from([1, 2, 3, 3, 4, 5, 6, 7, 8, 11, 16])
 # half of the datasets are tiny: fewer samples than ranks, padding longer than the draw itself
 SIZE = st.one_of(st.integers(1, 6), st.integers(1, 40))
 # sampler seeds: the usual small ones and values around the 31/32-bit boundaries and beyond (the generators take 64-bit seeds)
-SEEDS = st.one_of(st.integers(0, 2 ** 20), st.sampled_from([2 ** 31 - 1, 2 ** 31, 2 ** 32 - 1, 2 ** 32 + 5, 2 ** 40 + 3]))
+SEEDS = st.one_of(st.integers(0, 2 ** 20), st.sampled_from([2 ** 31 - 1, 2 ** 31, 2 ** 32 - 1, 2 ** 32 + 5, 2 ** 40 + 3]),
+                  st.integers(-60, -1))  # torch generators take negative seeds too
 # ------------------------------------------------------------------ real process groups (default rank / world size)
 def _group_member(rank, W, store, spec, conn):
     """body of one forked rank: joins a gloo group through a file store and builds its sampler WITHOUT rank / world size"""
